@@ -133,6 +133,119 @@ def _inline_one(F, G, bb):
     F["blocks"].extend(new_blocks)
 
 
+# ---- Option combinators given closures the reference tree does not have ------------------------------------------------------------
+# `opt.map_or_else(|| a, |x| b)`, `opt.map_or(v, |x| b)`, `opt.is_some_and(|x| b)`, `opt.is_none_or(|x| b)`, `opt.unwrap_or_else(|| a)`
+# are a `match opt { None => .., Some(x) => .. }` spelled with closures.  When the closures are new (not in the reference tree), the
+# call is rewritten - in the facts - into that match with the closure bodies in the arms, so that rules written for the match (a
+# decision on the variant, what the Some side reads, what the None side probes) see the same program.
+OPTION_COMBINATORS = {
+    "core::option::Option::<T>::map_or_else": ("closure", 1, "closure", 2),
+    "core::option::Option::<T>::map_or": ("value", 1, "closure", 2),
+    "core::option::Option::<T>::is_some_and": ("false", None, "closure", 1),
+    "core::option::Option::<T>::is_none_or": ("true", None, "closure", 1),
+    "core::option::Option::<T>::unwrap_or_else": ("closure", 1, "payload", None),
+}
+
+
+def _closure_of(F, op):
+    """Id of the closure an operand holds: the operand is a local with exactly one definition, a closure aggregate."""
+    if op.get("k") not in ("move", "copy") or op["pl"].get("p"):
+        return None
+    l = op["pl"]["l"]
+    defs = [s for b in F["blocks"] for s in b["stmts"] if s["k"] == "assign" and s["lhs"]["l"] == l and not s["lhs"].get("p")]
+    calls = [b for b in F["blocks"] if b["term"]["k"] == "call" and b["term"]["dest"]["l"] == l]
+    if len(defs) == 1 and not calls and defs[0]["rv"].get("k") == "agg" and defs[0]["rv"].get("closure"):
+        return defs[0]["rv"]["closure"]
+    return None
+
+
+def desugar_option_combinators(by_id, known):
+    n = 0
+    absorbed = set()
+    for fid, F in list(by_id.items()):
+        bb = 0
+        while bb < len(F["blocks"]) and len(F["blocks"]) < 4 * MAX_BLOCKS:
+            b = F["blocks"][bb]
+            t = b["term"]
+            bb += 1
+            if t["k"] != "call" or b.get("cleanup") or t.get("func", {}).get("k") != "const":
+                continue
+            spec = OPTION_COMBINATORS.get(t["func"].get("fn"))
+            if spec is None or not t["args"] or t["dest"].get("p") or t.get("target") is None:
+                continue
+            nkind, nidx, skind, sidx = spec
+            opt = t["args"][0]
+            if opt.get("k") not in ("move", "copy") or opt["pl"].get("p"):
+                continue
+            cl = {}
+            ok = True
+            for kind, idx in ((nkind, nidx), (skind, sidx)):
+                if kind == "closure":
+                    cid = _closure_of(F, t["args"][idx]) if idx < len(t["args"]) else None
+                    G = by_id.get(cid)
+                    if cid is None or G is None or cid in known or len(G["blocks"]) > MAX_BLOCKS or \
+                            any(x["term"]["k"] == "call" and _callee(x["term"], by_id) == cid for x in G["blocks"]):
+                        ok = False
+                    cl[idx] = cid
+            if not ok:
+                continue
+            sp = t.get("sp")
+            optty = (t.get("argtys") or [None])[0] or F["locals"][opt["pl"]["l"]]["ty"]
+            cont, unwind, dest = t["target"], t.get("unwind"), t["dest"]
+            some_cid = cl.get(sidx) if skind == "closure" else None
+            payty = by_id[some_cid]["locals"][2]["ty"] if some_cid and by_id[some_cid].get("arg_count", 0) >= 2 else (t.get("dty") or "?")
+            ld = len(F["locals"])
+            F["locals"].append({"ty": "isize", "mut": True})
+            lp = len(F["locals"])
+            F["locals"].append({"ty": payty, "mut": True})
+            bN, bS, bU = len(F["blocks"]), len(F["blocks"]) + 1, len(F["blocks"]) + 2
+
+            def call_block(cid, extra):
+                G = by_id[cid]
+                pre = []
+                carg = copy.deepcopy(t["args"][[i for i, c_ in cl.items() if c_ == cid][0]])
+                if G["locals"][1]["ty"].startswith("&"):
+                    lr = len(F["locals"])
+                    F["locals"].append({"ty": G["locals"][1]["ty"], "mut": True})
+                    pre.append({"k": "assign", "lhs": {"l": lr}, "rv": {"k": "ref", "mut": G["locals"][1]["ty"].startswith("&mut"), "pl": copy.deepcopy(carg["pl"])}, "sp": sp})
+                    carg = {"k": "move", "pl": {"l": lr}}
+                return {"cleanup": False, "stmts": pre + extra[0], "desugared": t["func"]["fn"],
+                        "term": {"k": "call", "func": {"k": "const", "ty": "closure", "fn": cid, "fnargs": [],
+                                                       "res": {"crate": fid.split("::")[0], "rkind": "item", "rpath": cid, "rcrate": fid.split("::")[0], "rlocal": True}},
+                                 "args": [carg] + extra[1], "argtys": [], "dest": copy.deepcopy(dest), "dty": t.get("dty"), "target": cont, "unwind": unwind,
+                                 "sp": sp, "tsp": t.get("tsp")}}
+
+            def value_block(op):
+                return {"cleanup": False, "stmts": [{"k": "assign", "lhs": copy.deepcopy(dest), "rv": {"k": "use", "op": op}, "sp": sp}], "desugared": t["func"]["fn"],
+                        "term": {"k": "goto", "target": cont, "sp": sp}}
+            payload_pl = {"l": opt["pl"]["l"], "p": [{"downcast": "Some"}, {"f": 0, "name": "0", "adt": "core::option::Option", "variant": "Some", "fty": payty}], "ty": payty}
+            take = [{"k": "assign", "lhs": {"l": lp}, "rv": {"k": "use", "op": {"k": "move", "pl": payload_pl}}, "sp": sp}]
+            if nkind == "closure":
+                blkN = call_block(cl[nidx], ([], []))
+            elif nkind == "value":
+                blkN = value_block(copy.deepcopy(t["args"][nidx]))
+            else:
+                blkN = value_block({"k": "const", "ty": "bool", "int": 1 if nkind == "true" else 0, "dbg": nkind})
+            if skind == "closure":
+                blkS = call_block(cl[sidx], (take, [{"k": "move", "pl": {"l": lp}}]))
+            else:
+                blkS = value_block({"k": "move", "pl": payload_pl})
+            blkU = {"cleanup": False, "stmts": [], "term": {"k": "unreachable"}}
+            F["blocks"].extend([blkN, blkS, blkU])
+            b["stmts"].append({"k": "assign", "lhs": {"l": ld}, "rv": {"k": "discr", "pl": {"l": opt["pl"]["l"], "ty": optty}, "adt": "core::option::Option",
+                                                                       "variants": [[0, "None"], [1, "Some"]], "pty": optty}, "sp": sp})
+            b["term"] = {"k": "switch", "discr": {"k": "move", "pl": {"l": ld}}, "dty": "isize", "targets": [[0, bN], [1, bS]], "otherwise": bU, "sp": sp,
+                         "desugared": t["func"]["fn"]}
+            for blk_i in (bS, bN):
+                if F["blocks"][blk_i]["term"]["k"] == "call":
+                    cid = F["blocks"][blk_i]["term"]["func"]["fn"]
+                    _inline_one(F, by_id[cid], blk_i)
+                    absorbed.add(cid)
+            n += 1
+    return n, absorbed
+
+
+
 def apply(data, known=None):
     """data: {crate: {"fns": [...], ...}} as loaded from the fact files.  Returns the number of call sites inlined."""
     known = load_known() if known is None else known
@@ -145,9 +258,15 @@ def apply(data, known=None):
     from . import renames as _ren
     LOCAL_RENAMES[:] = _ren.normalize_param_order(data, load_vars())
     LOCAL_RENAMES.extend(_ren.normalize_locals(data, load_vars()))
+    nd, absorbed_closures = desugar_option_combinators(by_id, set(known))
+    if nd:
+        for d in data.values():
+            d["fns"] = [raw for raw in d["fns"] if raw["id"] not in absorbed_closures]
+        for cid in absorbed_closures:
+            by_id.pop(cid, None)
     unknown = {fid for fid, raw in by_id.items() if fid not in known and raw.get("kind") != "Closure" and "{closure" not in fid}
     if not unknown:
-        return 0
+        return nd
     # A known function that merely moved (a nested fn hoisted to module level, a free function made a method ...) keeps its name:
     # when exactly one unknown function carries the last path segment of exactly one known function that is gone, it is that
     # function.  It is given its old id back, so that rules naming it keep finding it (and it is not inlined).
